@@ -677,6 +677,28 @@ func (x *Exec) evalCall(e gcl.Call, c *evalCtx) (typed, error) {
 	case "blen":
 		x.bytesVocab()
 		return tv(smt.App(smt.Int, "blen", args[0].t), intT), nil
+	case "mhas", "mget", "mlen": // what a map holds: mhas(m, k), mget(m, k) (meaningful where mhas), mlen(m)
+		if len(args) >= 1 && args[0].typ != nil {
+			if mt, ok := args[0].typ.Underlying().(*types.Map); ok {
+				st := x.curState(c)
+				switch {
+				case e.Fun == "mhas" && len(args) == 2:
+					if h, ok := x.mapHas(st, args[0].typ, args[0].t, args[1].t); ok {
+						return tv(smt.And(smt.Not(smt.Eq(args[0].t, smt.IntLit(0))), h), types.Typ[types.Bool]), nil
+					}
+				case e.Fun == "mget" && len(args) == 2:
+					if v, ok := x.mapGet(st, args[0].typ, args[0].t, args[1].t); ok {
+						x.sideFacts(c, v, mt.Elem())
+						return tv(v, mt.Elem()), nil
+					}
+				case e.Fun == "mlen" && len(args) == 1:
+					if v, ok := x.mapLen(st, args[0].typ, args[0].t); ok {
+						return tv(smt.Ite(smt.Eq(args[0].t, smt.IntLit(0)), smt.IntLit(0), v), intT), nil
+					}
+				}
+			}
+		}
+		return typed{}, fmt.Errorf("%s: not a modelled map: %s", e.Fun, e.Args[0])
 	case "bcmp":
 		x.bytesVocab()
 		return tv(x.bcmp(args[0].t, args[1].t), intT), nil
@@ -794,9 +816,25 @@ func (x *Exec) specParamType(s, pkg string) types.Type {
 	if gt := x.specGoType(s); gt != nil {
 		return gt
 	}
+	qual := ""
+	if i := strings.LastIndex(name, "."); i > 0 { // pkgname.Type: a type of a package that pkg imports
+		qual, name = name[:i], name[i+1:]
+	}
 	for _, p := range x.P.Prog.AllPackages() {
-		if p.Pkg.Path() == pkg {
-			if o, ok := p.Pkg.Scope().Lookup(name).(*types.TypeName); ok {
+		if p.Pkg.Path() != pkg {
+			continue
+		}
+		scopes := []*types.Package{p.Pkg}
+		if qual != "" {
+			scopes = nil
+			for _, imp := range p.Pkg.Imports() {
+				if imp.Name() == qual {
+					scopes = append(scopes, imp)
+				}
+			}
+		}
+		for _, sc := range scopes {
+			if o, ok := sc.Scope().Lookup(name).(*types.TypeName); ok {
 				if ptr {
 					return types.NewPointer(o.Type())
 				}
